@@ -197,7 +197,7 @@ class C18(Prop):
     model_modules = ['LokiModel.C17.Model', 'LokiModel.C17.Wire', 'LokiModel.C18.Model']
     props_module = 'LokiModel.Props.C18'
     driver = 'Drivers/C18.lean'
-    theorems = ['unpickle_inv', 'unpickle_attached', 'attInv_of_fresh', 'unpickle_fresh_partial']
+    theorems = ['unpickle_inv', 'unpickle_attached', 'attInv_of_fresh', 'unpickle_attrs', 'unpickle_fresh_partial']
     design_ref = 'DESIGN.md 4.B C17 / C18'
     level = 'proof'
     level_text = ('Proved for all heaps with the ownership invariant, all units and fuel values: unpickle_inv (the round trip keeps every '
